@@ -261,7 +261,7 @@ func (sc *scen) checkUnicast(dests []string) {
 	}
 	for i, d := range dests {
 		pid := fmt.Sprintf("u%d", i)
-		b, _ := bpv7.Builder().CRC(bpv7.CRC32).Source("dtn://node/app").Destination("dtn://" + d + "/in").CreationTimestampNow().Lifetime("24h").
+		b, _ := bpv7.Builder().CRC(bpv7.CRC32).Source("dtn://node/app").Destination("dtn://" + d + "/").CreationTimestampNow().Lifetime("24h").
 			PayloadBlock(nodesim.Payload(pid, 4)).Build()
 		step := len(sc.s.Trace()) + 1
 		sc.s.Submit(b)
@@ -495,7 +495,7 @@ func TestCheck(t *testing.T) {
 	r.Exhaustive("graphs on {self, a, b, d (+feeder)}: own links to a, b and links a->b, b->a, a->d, b->d each absent / live / lost early / lost late")
 
 	// larger random graphs (nine arcs incl. node c) and extra updates
-	r.Group("graphs-random", r.Pick(1500, 60000), func(i int, rng *report.Rand) {
+	r.Group("graphs-random", r.Pick(600, 60000), func(i int, rng *report.Rand) {
 		st := make([]int, 9)
 		for k := range st {
 			st[k] = rng.Intn(4)
